@@ -77,7 +77,7 @@ MUTANTS = [
     M("c12-momentum-overwritten", "C12", "break", [(CAL, "        self.streamline = streamline\n", "        self.streamline = streamline\n        if streamline:\n            self.momentum = 0.9\n")], "C12.R1"),
     M("c12-hook-not-reforward", "C12", "break", [(CAL, "            output = module.forward(input[0])\n            if isinstance(output, QBytesTensor):", "            if isinstance(output, QBytesTensor):")], "C12.R4"),
     M("c12-refactor-ema-form", "C12", "refactor", [(CAL, "return momentum * scale + new_scale * (1.0 - momentum)", "return new_scale + momentum * (scale - new_scale)")]),
-    M("c12-refactor-local-momentum", "C12", "refactor", [(CAL, "                input_scale = absmax_scale(input, module.activation_qtype)\n                module.input_scale = _updated_scale(module.input_scale, input_scale, self.momentum)", "                m = self.momentum\n                input_scale = absmax_scale(input, module.activation_qtype)\n                module.input_scale = _updated_scale(module.input_scale, input_scale, m)")]),
+    M("c12-refactor-local-momentum", "C12", "refactor", [(CAL, "                module.input_scale = _updated_scale(module.input_scale, input_scale, self.momentum).detach()", "                m = self.momentum\n                module.input_scale = _updated_scale(module.input_scale, input_scale, m).detach()")]),
     # ---------------- C13
     M("c13-exit-skips-on-exception", "C13", "break", [(CAL, "        for handle in self.hook_handles.pop():\n            handle.remove()", "        if exc_type is None:\n            for handle in self.hook_handles.pop():\n                handle.remove()")], "C13.R1"),
     M("c13-exit-one-handle", "C13", "break", [(CAL, "        for handle in self.hook_handles.pop():\n            handle.remove()", "        self.hook_handles.pop()[0].remove()")], "C13.R1"),
